@@ -280,3 +280,44 @@ theorem osuNth_spec (sk : Skills S) (objs : List OsuObj) (g : OsuGrad S) (i k : 
     exact hpre
 
 end Rosu.Gradual
+
+namespace Rosu.Gradual
+
+variable {S : Type}
+
+/-- From a canonical state, `k ≤ remaining` calls of `next` yield the next `k` values. -/
+theorem osu_nexts_spec (sk : Skills S) (objs : List OsuObj) (k : Nat) (g : OsuGrad S) (i : Nat)
+    (hc : OsuCanon sk objs g i) (hk : i + k ≤ objs.length) :
+    ((osuMachine sk objs).nexts g k).1 = (List.range k).map (fun d => Res.some (osuValue sk objs (i + d + 1))) ∧
+    OsuCanon sk objs ((osuMachine sk objs).nexts g k).2 (i + k) := by
+  induction k generalizing g i with
+  | zero => simpa [Machine.nexts] using hc
+  | succ k ih =>
+    have hlt : i < objs.length := by omega
+    obtain ⟨hv, hc'⟩ := (osuNext_spec sk objs g i hc).1 hlt
+    have ih' := ih _ (i + 1) hc' (by omega)
+    simp only [Machine.nexts]
+    have hn : (osuMachine sk objs).next g = (Res.some (osuValue sk objs (i + 1)), (osuNext sk objs g).2) := by
+      simp [osuMachine, hv, optToRes]
+    rw [hn]
+    refine ⟨?_, ?_⟩
+    · simp only
+      rw [ih'.1, List.range_succ_eq_map]
+      simp only [List.map_cons, List.map_map, Nat.add_zero]
+      congr 1
+      apply List.map_congr_left
+      intro d _
+      simp only [Function.comp]
+      congr 2
+      omega
+    · have e : i + (k + 1) = i + 1 + k := by omega
+      rw [e]; exact ih'.2
+
+
+theorem osuMachine_next_exhausted (sk : Skills S) (objs : List OsuObj) (g : OsuGrad S)
+    (hc : OsuCanon sk objs g objs.length) : (osuMachine sk objs).next g = (.none, g) := by
+  have := (osuNext_spec sk objs g _ hc).2 rfl
+  show (optToRes (osuNext sk objs g).1, (osuNext sk objs g).2) = _
+  rw [this]; rfl
+
+end Rosu.Gradual
